@@ -263,14 +263,6 @@ impl Cfg {
         let mut ranges = Vec::new();
         // push the previous nodes onto the queue
         queue.extend(node.prevs().clone());
-        #[cfg(feature = "rva_verif")]
-        crate::verif::order_tail_deque(
-            "first_store",
-            &mut queue,
-            node.prevs().len(),
-            node,
-            crate::verif::Kind::Prevs,
-        );
 
         // keep track of visited nodes
         #[allow(clippy::mutable_key_type)]
@@ -292,14 +284,6 @@ impl Cfg {
                 }
             }
             queue.extend(prev.prevs().clone().into_iter());
-            #[cfg(feature = "rva_verif")]
-            crate::verif::order_tail_deque(
-                "first_store",
-                &mut queue,
-                prev.prevs().len(),
-                &prev,
-                crate::verif::Kind::Prevs,
-            );
         }
         ranges
     }
@@ -312,14 +296,6 @@ impl Cfg {
         // push the next nodes onto the queue
 
         queue.extend(node.nexts().clone());
-        #[cfg(feature = "rva_verif")]
-        crate::verif::order_tail_deque(
-            "first_usage",
-            &mut queue,
-            node.nexts().len(),
-            node,
-            crate::verif::Kind::Nexts,
-        );
 
         // keep track of visited nodes
         #[allow(clippy::mutable_key_type)]
@@ -352,14 +328,6 @@ impl Cfg {
             }
 
             queue.extend(next.nexts().clone().into_iter());
-            #[cfg(feature = "rva_verif")]
-            crate::verif::order_tail_deque(
-                "first_usage",
-                &mut queue,
-                next.nexts().len(),
-                &next,
-                crate::verif::Kind::Nexts,
-            );
         }
         ranges
     }
